@@ -20,6 +20,7 @@ use smoltcp::wire::IpEndpoint;
 
 const V_MAC: [u8; 6] = [2, 0, 0, 0, 0, 1];
 const R_MAC: [u8; 6] = [2, 0, 0, 0, 0, 0x77];
+const R2_MAC: [u8; 6] = [2, 0, 0, 0, 0, 0x78];
 
 struct C<'a> {
     tape: &'a mut Tape,
@@ -40,6 +41,10 @@ struct C<'a> {
     /// C16: the default route learnt from the router's advertisements is valid until this instant (the most recent
     /// advertisement decides: a shorter or zero router lifetime shortens or removes it)
     route_until: Option<i64>,
+    /// a second router on the link (half of the runs): its advertisements come unsolicited, with lifetimes of their
+    /// own; the default route through it is valid until this instant
+    two_routers: bool,
+    route2_until: Option<i64>,
     /// echo replies seen (to the probe of the application's own global address, builds with enough address slots)
     echo_replies: u32,
 }
@@ -103,7 +108,8 @@ pub fn run(tape: &mut Tape, props: Props, thorough: bool, trace_on: bool) -> Out
         view.addrs.push((*a, 64));
     }
     let desc = format!("slaac-node tcp-connecting={} router-policy={} (0 timely, 1 late, 2 never, 3 timely+unsolicited) app-address={:?}", with_tcp, router_policy, app_addr);
-    let mut c = C { tape, props, node, view, now: 0, stats: Stats::default(), hash: LogHash::new(), trace: vec![], trace_on, events: 0, inflight: vec![], seq: 0, router_policy, udp: uh, idle_polls: 0, route_until: None, echo_replies: 0 };
+    let mut c = C { tape, props, node, view, now: 0, stats: Stats::default(), hash: LogHash::new(), trace: vec![], trace_on, events: 0, inflight: vec![], seq: 0, router_policy, udp: uh, idle_polls: 0, route_until: None, two_routers: false, route2_until: None, echo_replies: 0 };
+    c.two_routers = c.tape.draw(2) == 0;
     let mut r = body(&mut c, thorough);
     if let (Ok(()), Some(a)) = (&r, app_addr) {
         r = own_address_probe(&mut c, a);
@@ -150,13 +156,16 @@ fn router_advertisement(c: &mut C, dst: IpAddr, dst_mac: [u8; 6]) -> Vec<u8> {
         }
         body.extend_from_slice(&p);
     }
+    // (the second router, when there is one, sends a third of the unsolicited advertisements)
+    let second = c.two_routers && dst.is_multicast() && c.tape.draw(3) == 0;
+    let (r_mac, r_ip) = if second { (R2_MAC, ll(0x78)) } else { (R_MAC, ll(0x77)) };
     body.extend_from_slice(&[1, 1]);
-    body.extend_from_slice(&R_MAC);
-    let src = ll(0x77);
+    body.extend_from_slice(&r_mac);
+    let src = r_ip;
     let icmp = enc_icmp(true, &src, &dst, 134, 0, [64, 0, (router_lifetime >> 8) as u8, router_lifetime as u8], &body);
     c.stats.inc("slaac.router-advertisements");
     c.log(|| format!("router: RA router_lifetime={} valid={} preferred={} prefixes={}", router_lifetime, valid, preferred, n_prefix));
-    enc_eth(dst_mac, R_MAC, ETH_IPV6, &enc_ip(&src, &dst, P_ICMP6, 255, &icmp))
+    enc_eth(dst_mac, r_mac, ETH_IPV6, &enc_ip(&src, &dst, P_ICMP6, 255, &icmp))
 }
 
 /// One poll at c.now; returns (frames received, frames transmitted that count for C13).
@@ -173,7 +182,12 @@ fn poll(c: &mut C, probe: bool) -> Result<(usize, usize), Violation> {
             let (_, _, f) = c.inflight.remove(0);
             if f.len() >= 62 && f[12] == 0x86 && f[13] == 0xdd && f[20] == P_ICMP6 && f[54] == 134 {
                 let life = ((f[60] as i64) << 8) | f[61] as i64;
-                c.route_until = if life == 0 { None } else { Some(c.now + life * 1_000_000) };
+                let until = if life == 0 { None } else { Some(c.now + life * 1_000_000) };
+                if f[6..12] == R2_MAC {
+                    c.route2_until = until;
+                } else {
+                    c.route_until = until;
+                }
             }
             c.hash.bytes(&f);
             c.node.dev.rx.push_back(f);
@@ -198,11 +212,13 @@ fn poll(c: &mut C, probe: bool) -> Result<(usize, usize), Violation> {
             if let (Some(e), Some(ip)) = (&p.eth, &p.ip) {
                 if let IpAddr::V6(d) = ip.dst {
                     if d[0] == 0x20 && d[1] == 0x01 && d[2] == 0x48 {
-                        let valid = c.route_until.map(|u| c.now <= u + 1_000).unwrap_or(false);
+                        // (each router's most recent advertisement decides about the route through that router)
+                        let until = if e.dst == R2_MAC { c.route2_until } else { c.route_until };
+                        let valid = until.map(|u| c.now <= u + 1_000).unwrap_or(false);
                         if !valid {
-                            return Err(viol("C16", "next-hop", "C16.route/sent-through-a-router-whose-advertised-lifetime-is-over", format!("packet to the off-link destination {} transmitted at t={} us although the router's most recent advertisement makes the default route valid until {:?}: {}", ip.dst, c.now, c.route_until, p.summary())));
+                            return Err(viol("C16", "next-hop", "C16.route/sent-through-a-router-whose-advertised-lifetime-is-over", format!("packet to the off-link destination {} transmitted at t={} us although the router's most recent advertisement makes the default route through it valid until {:?} (sent to {:02x?}): {}", ip.dst, c.now, until, e.dst, p.summary())));
                         }
-                        if e.dst != R_MAC {
+                        if e.dst != R_MAC && !(c.two_routers && e.dst == R2_MAC) {
                             return Err(viol("C16", "next-hop", "C16.l2dst/wrong-hardware-address", format!("packet to the off-link destination {} sent to {:02x?}, the router is {:02x?}", ip.dst, e.dst, R_MAC)));
                         }
                     }
@@ -249,12 +265,13 @@ fn poll(c: &mut C, probe: bool) -> Result<(usize, usize), Violation> {
                 // neighbour solicitation for the router: answered; for the silent TCP peer: never
                 let mut t = [0u8; 16];
                 t.copy_from_slice(&ic.body[..16]);
-                if IpAddr::V6(t) == ll(0x77) && !ip.src.is_unspecified() {
+                let which = if IpAddr::V6(t) == ll(0x77) { Some((ll(0x77), R_MAC)) } else if c.two_routers && IpAddr::V6(t) == ll(0x78) { Some((ll(0x78), R2_MAC)) } else { None };
+                if let (Some((r_ip, r_mac)), false) = (which, ip.src.is_unspecified()) {
                     let mut body = t.to_vec();
                     body.extend_from_slice(&[2, 1]);
-                    body.extend_from_slice(&R_MAC);
-                    let icmp = enc_icmp(true, &ll(0x77), &ip.src, 136, 0, [0x60, 0, 0, 0], &body);
-                    let f = enc_eth(V_MAC, R_MAC, ETH_IPV6, &enc_ip(&ll(0x77), &ip.src, P_ICMP6, 255, &icmp));
+                    body.extend_from_slice(&r_mac);
+                    let icmp = enc_icmp(true, &r_ip, &ip.src, 136, 0, [0x60, 0, 0, 0], &body);
+                    let f = enc_eth(V_MAC, r_mac, ETH_IPV6, &enc_ip(&r_ip, &ip.src, P_ICMP6, 255, &icmp));
                     c.log(|| "router: neighbour advertisement".to_string());
                     c.seq += 1;
                     c.inflight.push((c.now + 1_000, c.seq, f));
